@@ -262,4 +262,5 @@ def cells(tier):
                 out.append(Cell(f"hook:{kind}:{entry}|{'rel' if rel else 'abs'}",
                                 _make_hook(kind, entry, rel), budget_s=budget,
                                 entry="GCodeBuilder._prepare_move (hooks)"))
+    out += history_variants([c for c in out if not c.name.startswith(('history', 'real-', 'two-'))])
     return out
